@@ -69,10 +69,27 @@ def allocate(fv, q, cname, node, st, spec):
         ci = fv.E.fe.classes.get(cname)
         c = find_method_contract(fv, cname, '__init__') if ci else None
     if c is None:
+        if fv.in_slice() and any(scls == cname.split('.')[-1] for scls, _, _ in fv.c.sites):
+            fv.err(node, 'no contract for constructor %s of a site class' % q)
         fv.err(node, 'no contract for constructor %s' % q)
     o = new_object(fv, st, cname)
     apply_contract(fv, c, node, st, spec, o)
+    site_obligations(fv, st, cname, o, node)
     return o
+
+
+def site_obligations(fv, st, cname, o, node):
+    if fv.c is None or not fv.c.sites:
+        return
+    simple = cname.split('.')[-1]
+    for scls, sname, sexpr in fv.c.sites:
+        if scls == simple or scls == cname:
+            fv.bound_env.append({'new': o})
+            try:
+                g = fv.truthy(fv.ev(sexpr, st, True))
+            finally:
+                fv.bound_env.pop()
+            fv.oblige(st, 'site[new %s@%s]/inv[%s]' % (simple, site_ordinal(fv, node, 'new ' + simple), sname), g, node)
 
 
 def deepcopy_obj(fv, v, node, st, shallow):
@@ -101,3 +118,37 @@ def unchanged(fv, node, st):
                 old = z3.Const('H_%s!0' % key, z3.ArraySort(P.V, zsort(fty)))
             conj.append(z3.Select(cur, o.term) == z3.Select(old, o.term))
     return z3.And(*conj) if conj else z3.BoolVal(True)
+
+
+def site_ordinal(fv, node, what):
+    """stable name of a site inside its function: the ordinal of the AST node among the sites of that kind in source order
+    (independent of line numbers)"""
+    import ast as _ast
+    if fv.fn is None:
+        return '?'
+    cache = getattr(fv, '_site_ordinals', None)
+    if cache is None:
+        cache = fv._site_ordinals = {}
+        counters = {}
+        for n in _ast.walk(fv.fn):
+            kinds = []
+            if isinstance(n, _ast.Call):
+                f = n.func
+                nm = f.id if isinstance(f, _ast.Name) else (f.attr if isinstance(f, _ast.Attribute) else None)
+                if nm:
+                    kinds.append('new ' + nm)
+            if isinstance(n, (_ast.Assign, _ast.AugAssign, _ast.AnnAssign)):
+                tg = n.targets if isinstance(n, _ast.Assign) else [n.target]
+                for t in tg:
+                    for e in (t.elts if isinstance(t, (_ast.Tuple, _ast.List)) else [t]):
+                        if isinstance(e, _ast.Attribute):
+                            kinds.append('store .' + e.attr)
+            for k in kinds:
+                key = (k, n.lineno, n.col_offset)
+                if key not in cache:
+                    cache[key] = None
+        # number in source order
+        for (k, ln, col) in sorted(cache, key=lambda x: (x[0], x[1], x[2])):
+            counters[k] = counters.get(k, -1) + 1
+            cache[(k, ln, col)] = counters[k]
+    return cache.get((what, getattr(node, 'lineno', 0), getattr(node, 'col_offset', 0)), '?')
